@@ -31,14 +31,17 @@ Record fixes := {
   f_rollback_order : bool; (* Rollback tolerates a block record that lists the spender of an in-block coin before its creator *)
   f_import_tipcheck : bool; (* asyncImport refuses (retry) a batch when the chain it reads is not the chain the handler is synced to *)
   f_removable_debit : bool; (* removableTxForRemoveWallet decides from the wallet database alone, not from the node's current best chain *)
-  f_ff_check : bool (* Start() takes the sync-record fast-forward only when the stored tip is still on the node's chain *)
+  f_ff_check : bool; (* Start() takes the sync-record fast-forward only when the stored tip is still on the node's chain *)
+  f_keystore_undo : bool (* 96d76da: a failed NewAddress / last removal round repairs the cached keystore in memory (ForgetAddresses,
+                            RestoreCachedKeystore: no database access) instead of reloading it from the store (f6a5978 / 33294fa:
+                            a reload that can fail itself); Ledger/FaultOps.v *)
 }.
 Definition repaired : fixes :=
   {| f_removable := true; f_rollback := true; f_import_retry := true; f_start_reorg := true; f_rollback_order := true;
-     f_import_tipcheck := true; f_removable_debit := true; f_ff_check := true |}.
+     f_import_tipcheck := true; f_removable_debit := true; f_ff_check := true; f_keystore_undo := true |}.
 Definition as_found : fixes :=
   {| f_removable := false; f_rollback := false; f_import_retry := false; f_start_reorg := false; f_rollback_order := false;
-     f_import_tipcheck := false; f_removable_debit := false; f_ff_check := false |}.
+     f_import_tipcheck := false; f_removable_debit := false; f_ff_check := false; f_keystore_undo := false |}.
 
 Inductive wst := WReady | WImporting (cursor : Z) | WRemoving.
 
